@@ -59,12 +59,14 @@ def build_ts_X_y(model, X, y, weights=None, same_rows=False):
         model, "past"
     ), f"model must be of type BaseTimeSeries not {type(model)}"
     if same_rows:
+        # rows without value are filled with nan: an integer series needs a float result
+        dtype = y.dtype if numpy.issubdtype(y.dtype, numpy.floating) else numpy.float64
         if model.use_all_past:
             ncol = X.shape[1] if X is not None else 0
             nrow = y.shape[0] - model.delay2 - model.past + 2
 
             new_X = numpy.full(
-                (y.shape[0], ncol * model.past + model.past), numpy.nan, dtype=y.dtype
+                (y.shape[0], ncol * model.past + model.past), numpy.nan, dtype=dtype
             )
             first = y.shape[0] - nrow
             if X is not None:
@@ -77,7 +79,7 @@ def build_ts_X_y(model, X, y, weights=None, same_rows=False):
                 new_X[first - i : first - i + end - i, i + ncol * model.past] = y[i:end]
 
             new_y = numpy.full(
-                (y.shape[0], model.delay2 - model.delay1), numpy.nan, dtype=y.dtype
+                (y.shape[0], model.delay2 - model.delay1), numpy.nan, dtype=dtype
             )
             for i in range(model.delay1, model.delay2):
                 new_y[first:, i - model.delay1] = y[i + 1 : i + nrow + 1]
@@ -89,7 +91,7 @@ def build_ts_X_y(model, X, y, weights=None, same_rows=False):
             first = y.shape[0] - nrow
 
             new_X = numpy.full(
-                (y.shape[0], ncol + model.past), numpy.nan, dtype=y.dtype
+                (y.shape[0], ncol + model.past), numpy.nan, dtype=dtype
             )
             if X is not None:
                 new_X[first:, : X.shape[1]] = X[
@@ -100,7 +102,7 @@ def build_ts_X_y(model, X, y, weights=None, same_rows=False):
                 new_X[first:, i + ncol] = y[i:end]
 
             new_y = numpy.full(
-                (y.shape[0], model.delay2 - model.delay1), numpy.nan, dtype=y.dtype
+                (y.shape[0], model.delay2 - model.delay1), numpy.nan, dtype=dtype
             )
             for i in range(model.delay1, model.delay2):
                 dec = model.past - 1
